@@ -15,6 +15,7 @@ Half == [n |-> "num", ip |-> "0", fp |-> "5", m |-> 5, e |-> 0 - 1]
 S(s, cp) == [n |-> "str", s |-> s, cp |-> cp]
 Tr == [n |-> "bool", bv |-> TRUE]  Fa == [n |-> "bool", bv |-> FALSE]  Nu == [n |-> "null"]
 X == Nm("x")  Y == Nm("y")  XS == Nm("xs")  C == Nm("c")  Iv == Nm("i")  Jv == Nm("j")  U == Nm("u")  Wv == Nm("w")
+Sa == S("a", <<97>>)  Sb == S("b", <<98>>)
 Zero == I("0", 0)  One == I("1", 1)  Two == I("2", 2)  Three == I("3", 3)
 Bin(op, a, b) == [n |-> op, a |-> a, b |-> b]
 Neg(a) == [n |-> "neg", a |-> a]
@@ -60,7 +61,12 @@ Outer(h) == {
   Call(Fn(<<"u">>, Lst(<<U, h>>)), <<X>>),
   Path(Cx(<<En("f", Fn(<<"u">>, Bin("add", U, One))), En("r", Call(Nm("f"), <<h>>))>>), "r"),
   Path(Cx(<<En("f", Fn(<<"u", "w">>, Lst(<<U, Wv>>))), En("r", CallN(Nm("f"), <<[p |-> "w", v |-> h], [p |-> "u", v |-> X]>>))>>), "r"),
-  Path(Cx(<<En("f", Fn(<<"u", "w">>, Lst(<<U, Wv>>))), En("r", Call(Nm("f"), <<h>>))>>), "r") }
+  Path(Cx(<<En("f", Fn(<<"u", "w">>, Lst(<<U, Wv>>))), En("r", Call(Nm("f"), <<h>>))>>), "r"),
+  \* fewer arguments than parameters, the missing parameter's name being bound where the call is made
+  Path(Cx(<<En("f", Fn(<<"u", "y">>, Lst(<<U, Y>>))), En("r", Call(Nm("f"), <<h>>))>>), "r"),
+  For(<<It("w", XS)>>, Call(Fn(<<"u", "w">>, Lst(<<U, Wv>>)), <<h>>)),
+  \* ranges of strings, the two ends closed differently
+  Bin("in", h, Rng(Sa, TRUE, Sb, FALSE)), Bin("in", h, Rng(Sa, FALSE, Sb, TRUE)), Bin("in", X, EL(<<Rng(X, FALSE, Y, TRUE), h>>)), Bin("in", Y, EL(<<h, Rng(X, FALSE, Y, TRUE)>>)) }
 
 Leaves == {One, Two, Half, S("a", <<97>>), Tr, Fa, Nu, X, Y, XS, C}
 Inner == Leaves \cup {
@@ -75,7 +81,10 @@ Inner == Leaves \cup {
   For(<<It("i", Lst(<<One, Two>>)), Ir("j", Two, One)>>, Bin("add", Bin("mul", Iv, I("10", 10)), Jv)),
   Some(<<It("i", XS)>>, Bin("eq", Iv, X)), Every(<<It("i", XS)>>, Bin("eq", Iv, X)),
   Some(<<It("i", XS), It("j", Lst(<<>>))>>, Tr), Every(<<It("i", XS), It("j", Lst(<<>>))>>, Fa),
-  Call(Fn(<<"u">>, U), <<X>>), Call(Fn(<<"u", "w">>, Bin("sub", U, Wv)), <<Y, X>>), Call(Fn(<<>>, One), <<>>), Call(Fn(<<"u">>, U), <<X, Y>>) }
+  Call(Fn(<<"u">>, U), <<X>>), Call(Fn(<<"u", "w">>, Bin("sub", U, Wv)), <<Y, X>>), Call(Fn(<<>>, One), <<>>), Call(Fn(<<"u">>, U), <<X, Y>>),
+  Bin("in", X, Rng(X, TRUE, Y, FALSE)), Bin("in", X, Rng(X, FALSE, Y, TRUE)), Bin("in", Y, Rng(X, TRUE, Y, FALSE)), Bin("in", Y, Rng(X, FALSE, Y, TRUE)),
+  Bin("in", Sb, Rng(Sa, TRUE, Sb, FALSE)), Bin("in", Sb, Rng(Sa, FALSE, Sb, TRUE)), Bin("in", Sa, Rng(Sa, FALSE, Sb, TRUE)), Bin("in", Sa, Rng(Sa, TRUE, Sb, FALSE)),
+  Call(Fn(<<"u", "y">>, Lst(<<U, Y>>)), <<X>>), Call(Fn(<<"y", "u">>, Lst(<<U, Y>>)), <<X>>) }
 
 ExprsQ == Inner \cup UNION {Outer(h) : h \in Inner}
 Exprs  == IF Deep THEN ExprsQ \cup UNION {Outer(g) : g \in UNION {Outer(h) : h \in {X, XS, C, Lst(<<X, Y>>), Bin("add", X, Y), Flt(XS, Bin("gt", Item, One)), For(<<It("i", XS)>>, Iv)}}} ELSE ExprsQ
